@@ -111,6 +111,9 @@ def build(model, ranks=None, plain=False, default_resource_ids=False, share_id_o
     for i, tj in enumerate(model["tasks"]):
         if tj.get("comp") is not None and not model.get("comp_ctor_tasks"):
             comps[tj["comp"]].append_targeted_task(tasks[i])
+    for i, tj in enumerate(model["tasks"]):
+        if tj.get("also_comp") is not None and tj.get("comp") is not None and tj["also_comp"] != tj["comp"] and not model.get("comp_ctor_tasks"):
+            comps[tj["also_comp"]].append_targeted_task(tasks[i])  # a task that belongs to two components
 
     teams = []
     for mj in model.get("teams", []):
